@@ -33,7 +33,7 @@ func init() {
 		Assumptions: []string{
 			"reference wire document: encoding/json itself on every union-free component; structs containing unions are described with encoding/json's field rules (exported fields, tag name, \"-\", omitempty, embedded structs), unions as {Kind, Data}",
 			"values leave unexported and json:\"-\" fields zero (a round trip cannot preserve them in plain Go either)",
-			"programs whose generated code does not type-check in process are C01's business (counted as skipped_not_compiling)",
+			"a program whose generated code does not type-check in process is reported (clause generated-code-usable): no value can be round-tripped through it",
 		},
 	})
 	registerBatch(&BatchCheck{
